@@ -894,6 +894,19 @@ func runFailover(seed int64, idx int) *scen.Outcome {
 		fbFrom = f.now()
 		fbTo = fbFrom + d
 		c.Fallback(d)
+		if (idx/4)%2 == 1 {
+			// a second pause requested while the first is still in effect
+			// (two callers backing off): routing resumes when both have ended
+			d2 := time.Duration(50+rnd(400)) * time.Millisecond
+			spawn(func() {
+				time.Sleep(d / 2)
+				c.Fallback(d2)
+			})
+			if end := fbFrom + d/2 + d2; end > fbTo {
+				fbTo = end
+			}
+			desc += " overlapping-pauses"
+		}
 		w := 1 + rnd(16)
 		for k := 0; k < w; k++ {
 			form := forms[rnd(len(forms))]
@@ -913,6 +926,11 @@ func runFailover(seed int64, idx int) *scen.Outcome {
 		f.down[victim] = []downIv{{failFrom, failTo}}
 		f.mu.Unlock()
 		desc += fmt.Sprintf(" victim=%s refuses [%v,%v)", victim, failFrom, failTo)
+		// the steady caller either makes calls or only opens streams
+		streamsOnly := (idx/4)%3 == 2
+		if streamsOnly {
+			desc += " steady-caller=NewStream"
+		}
 		if sleeper != "" {
 			// the target that was down from the start recovers just when the
 			// victim goes down, and its (fast) check completes before the
@@ -927,7 +945,11 @@ func runFailover(seed int64, idx int) *scen.Outcome {
 			for f.now() < failTo+1500*time.Millisecond {
 				// user Pings carry no token and cannot be told from detector
 				// pings at the transport, so the steady caller does not use them
-				do([]string{"Call", "CallWithContext"}[rnd(2)])
+				if streamsOnly {
+					do("NewStream")
+				} else {
+					do([]string{"Call", "CallWithContext"}[rnd(2)])
+				}
 				time.Sleep(time.Duration(3+rnd(15)) * time.Millisecond)
 			}
 		})
